@@ -62,10 +62,10 @@ func VerifC01_ValueShapes() {
 // removes fully flushed files, reopened), so that reads are served by the SSTables and by their load order, not
 // by replayed memtables: put+flush / delete+flush / retire+reopen steps, then a get of a symbolic probe key.
 func VerifC01_ReadFromTables() {
-	h := &hEnv{}
+	h := &hEnv{wk: 1} // quick: the steps write one key (the probe still ranges over every key)
 	N := 5
 	if vsym.Thorough() {
-		N = 7
+		N, h.wk = 6, 0
 	}
 	h.hKeys(2)
 	h.hOpen(true, false)
